@@ -64,3 +64,9 @@ Proof. exact graph_insert_as_modelled. Qed.
    (no path around the visited set) *)
 Theorem C06_code_visits_each_asset_once : visit_wf DepsGraph_visit = true.
 Proof. exact visit_marks_before_recursing. Qed.
+
+(* watchers: a new watcher starts at the handle's current reload id; `reloaded` compares the id
+   loaded now with the one remembered and advances it *)
+Theorem C06_code_watcher_starts_at_the_current_id :
+  watcher_new_wf ReloadWatcherInner_new = true /\ watcher_reloaded_wf ReloadWatcher_reloaded = true.
+Proof. exact watcher_starts_at_the_current_id. Qed.
